@@ -12,6 +12,13 @@
 //	M  parse / fv / file / sec / nvar / fpt   outcome class and digest of the canonical tree dump against
 //	                            the Go-semantics Lean model (`drv_c05`), for inputs up to mLimit bytes
 //	M  walk                     validate / extract on the model's tree: class
+//	M  asm                      (&visitors.Assemble{}).Run on the parsed tree against the Go-semantics model
+//	                            assembleG: class, digest of the whole assembled tree, FNV of its root buffer
+//	M  nvarwalk                 validate / extract / assemble over the NVarStore / NVar nodes: classes and the
+//	                            FNV of the assembled store buffer
+//	M  asmrun                   `utk <image> <edit ops> save`: every save assembled by assembleG (the case
+//	                            stream of harness/props/uefiedit, used read-only)
+//	O  save-after-edit-returns-or-errors   no panic / log.Fatalf in a save that follows edit operations
 //
 // The constants k, K, … are fixed below (bounds.go) and recorded in the report.
 package c05
@@ -36,6 +43,7 @@ import (
 
 	"verif/harness/core"
 	hu "verif/harness/props/uefi"
+	ue "verif/harness/props/uefiedit"
 )
 
 type prop struct{}
@@ -53,6 +61,8 @@ func init() {
 		}
 		// fiano is single-threaded; fewer Ps make the per-call measurements cheap and less noisy
 		runtime.GOMAXPROCS(2)
+		// (corpus case 23, nested NVAR stores, lived at the edge of this ceiling — json indents quadratically —
+		// and passed or not with the allocation pattern of the binary; it was made smaller, see reports/C05.md B5.4)
 		// scratch directories of workers that were killed in the middle of an extract
 		for _, pat := range []string{"/dev/shm/c05-x-*", filepath.Join(os.TempDir(), "c05-x-*")} {
 			ds, _ := filepath.Glob(pat)
@@ -184,6 +194,7 @@ type decEntry struct {
 	in    []byte
 	out   []byte
 	ok    bool
+	enc   bool // an *encoder* answer (assemble): key prefix "enc-"
 }
 
 type decTable []decEntry
@@ -198,14 +209,20 @@ func (t decTable) String() string {
 		if e.ok {
 			v = core.Hex(e.out)
 		}
-		ps = append(ps, fmt.Sprintf("%s:%016x:%d=%s", e.codec, core.FNV(e.in), len(e.in), v))
+		pre := ""
+		if e.enc {
+			pre = "enc-"
+		}
+		ps = append(ps, fmt.Sprintf("%s%s:%016x:%d=%s", pre, e.codec, core.FNV(e.in), len(e.in), v))
 	}
 	return strings.Join(ps, ",")
 }
 
 func (t decTable) decompressed() (n uint64) {
 	for _, e := range t {
-		n += uint64(len(e.out))
+		if !e.enc {
+			n += uint64(len(e.out))
+		}
 	}
 	return
 }
@@ -215,6 +232,9 @@ func (t decTable) decompressed() (n uint64) {
 // dictionary to what xz -9 ever writes (64 MiB); anything above is the known finding `lzma-dict`.
 func (t decTable) thirdParty(capped bool) (n uint64) {
 	for _, e := range t {
+		if e.enc {
+			continue
+		}
 		switch e.codec {
 		case "LZMA", "LZMAX86":
 			if len(e.in) >= 13 {
@@ -233,6 +253,8 @@ func (t decTable) thirdParty(capped bool) (n uint64) {
 }
 
 var preDriver *core.Driver
+
+var encCache = map[string]decEntry{}
 
 func driverPath() string {
 	root := os.Getenv("VERIF_ROOT")
@@ -262,7 +284,7 @@ func mentionsCodec(b []byte) bool {
 // buildTable asks the model which byte strings it hands to a decoder on this request and answers with what
 // the real decoder (the code uefi.NewSection calls) returns, until the model needs nothing more.
 // ok=false: no driver, or the dialogue did not converge (the M check is then skipped).
-func buildTable(op string, z int, dd bool, in []byte) (decTable, bool) {
+func buildTable(op string, z int, dd bool, in []byte, init ...decEntry) (decTable, bool) {
 	if dd || !mentionsCodec(in) {
 		return nil, true
 	}
@@ -279,13 +301,45 @@ func buildTable(op string, z int, dd bool, in []byte) (decTable, bool) {
 		}
 		preDriver = d
 	}
-	var t decTable
+	t := append(decTable{}, init...)
 	h := core.Hex(in)
 	for round := 0; round < 64; round++ {
 		ans, err := preDriver.Ask(fmt.Sprintf("%s %d %d %s %s", op, z, b2i(dd), h, t.String()))
 		if err != nil {
 			preDriver = nil
 			return nil, false
+		}
+		if strings.HasPrefix(ans, "need-enc ") {
+			// assemble: what the real encoder (the code Assemble.Visit calls) returns for this section data
+			ws := strings.Split(ans, " ")
+			if len(ws) != 3 {
+				return nil, false
+			}
+			g, known := codecNames[ws[1]]
+			if !known {
+				return nil, false
+			}
+			e := decEntry{codec: ws[1], in: core.UnHex(ws[2]), enc: true}
+			// the encoders are deterministic (xz / zlib with fixed parameters) and slow to start: remember
+			// their answers across cases (the mutants of one seed re-encode the same payloads)
+			ck := fmt.Sprintf("%s:%016x:%d", e.codec, core.FNV(e.in), len(e.in))
+			if hit, ok := encCache[ck]; ok && bytes.Equal(hit.in, e.in) {
+				e.out, e.ok = hit.out, hit.ok
+			} else {
+				func() {
+					defer func() { recover() }()
+					c := compression.CompressorFromGUID(&g)
+					out, err := c.Encode(append([]byte{}, e.in...))
+					if err == nil {
+						e.out, e.ok = out, true
+					}
+				}()
+				if len(encCache) < 4096 && len(e.in) <= 64<<10 {
+					encCache[ck] = e
+				}
+			}
+			t = append(t, e)
+			continue
 		}
 		if !strings.HasPrefix(ans, "need-dec ") {
 			return t, true
@@ -588,8 +642,11 @@ func walkers() []walker {
 	}
 }
 
+var lastWalk map[string]string // walker name → class of the last runWalkers call
+
 func runWalkers(tree fuefi.Firmware, c ctx, out *core.Outcome) string {
 	var cls []string
+	lastWalk = map[string]string{}
 	for _, w := range walkers() {
 		w := w
 		if strings.Contains(os.Getenv("C05_SKIP"), w.name) { // debugging knob
@@ -599,6 +656,7 @@ func runWalkers(tree fuefi.Firmware, c ctx, out *core.Outcome) string {
 		out.Checks = append(out.Checks, totalCheck(w.name, r))
 		out.Checks = append(out.Checks, resourceChecks(w.name, r, c)...)
 		cls = append(cls, w.name[:1]+":"+r.class)
+		lastWalk[w.name] = r.class
 	}
 	return strings.Join(cls, ",")
 }
@@ -710,10 +768,18 @@ func (prop) Run(c core.Case) core.Outcome {
 				dig = hu.Digest(node)
 			}
 		}
+		// the model answers about one uefi.Parse are asked for in one request (`multi`): parse, and — once the
+		// walkers ran — walk and asm
+		parts, exps := []string{}, []string{}
+		mtbl := tbl
 		if withModel && tblOK {
 			exp := modelClass(r, "ok "+dig)
-			out.Checks = append(out.Checks, core.Check{Tag: "M", What: c.Op,
-				Req: fmt.Sprintf("%s %d %d %s %s", c.Op, z, b2i(dd), core.Hex(in), tbl.String()), Exp: exp})
+			if c.Op == "parse" {
+				parts, exps = append(parts, "parse"), append(exps, exp)
+			} else {
+				out.Checks = append(out.Checks, core.Check{Tag: "M", What: c.Op,
+					Req: fmt.Sprintf("%s %d %d %s %s", c.Op, z, b2i(dd), core.Hex(in), tbl.String()), Exp: exp})
+			}
 		}
 		out.Class = c.Op + ":" + r.class
 		out.Key = dig + r.class
@@ -724,10 +790,26 @@ func (prop) Run(c core.Case) core.Outcome {
 			wcls := runWalkers(node, cx, &out)
 			out.Class += " " + wcls
 			if c.Op == "parse" && withModel && tblOK {
-				out.Checks = append(out.Checks, core.Check{Tag: "M", What: "walk",
-					Req: fmt.Sprintf("walk %d %d %s %s", z, b2i(dd), core.Hex(in), tbl.String()),
-					Exp: "ok validate=ok extract=ok"})
+				parts, exps = append(parts, "walk"), append(exps, "ok validate=ok extract=ok")
+				// assemble ran last and rewrote the tree: compare what it left with the Go-semantics model
+				// (not when a file asks for a data alignment, or a nested volume claims a block, of 256 KiB and more:
+				// the list-based model would build the same pad file / grown volume byte by byte)
+				if acl, ran := lastWalk["assemble"]; ran && (acl == "ok" || acl == "err") && cx.alignPad < 256<<10 && cx.blockGrow < 256<<10 {
+					atbl, aok := buildTable("asm", z, dd, keep, tbl...)
+					if aok {
+						exp := "err"
+						if acl == "ok" {
+							exp = fmt.Sprintf("ok %s %016x", hu.Digest(node), core.FNV(node.Buf()))
+						}
+						parts, exps, mtbl = append(parts, "asm"), append(exps, exp), atbl
+					}
+				}
 			}
+		}
+		if len(parts) > 0 {
+			out.Checks = append(out.Checks, core.Check{Tag: "M", What: strings.Join(parts, "+"),
+				Req: fmt.Sprintf("multi %s %d %d %s %s", strings.Join(parts, ","), z, b2i(dd), core.Hex(keep), mtbl.String()),
+				Exp: strings.Join(exps, " ; ")})
 		}
 		out.Trivial = len(in) == 0
 		return out
@@ -764,6 +846,44 @@ func (prop) Run(c core.Case) core.Outcome {
 			out.Class += fmt.Sprintf(":%s", bucket(len(st.Entries)))
 			wcls := runWalkers(st, cx, &out)
 			out.Class += " " + wcls
+			v, x, a := lastWalk["validate"], lastWalk["extract"], lastWalk["assemble"]
+			if len(in) <= mLimit && okOrErr(v) && okOrErr(x) && okOrErr(a) {
+				if a == "ok" {
+					a = fmt.Sprintf("ok:%016x", core.FNV(st.Buf()))
+				}
+				out.Checks = append(out.Checks, core.Check{Tag: "M", What: "nvarwalk",
+					Req: fmt.Sprintf("nvarwalk %d %s", pol, core.Hex(in)),
+					Exp: fmt.Sprintf("ok validate=%s extract=%s assemble=%s", v, x, a)})
+			}
+		} else if r.class == "err" && len(in) <= mLimit {
+			out.Checks = append(out.Checks, core.Check{Tag: "M", What: "nvarwalk",
+				Req: fmt.Sprintf("nvarwalk %d %s", pol, core.Hex(in)), Exp: "parse:err"})
+		}
+		out.Trivial = len(in) == 0
+		return out
+	case "asmrun":
+		// `utk <image> <ops>`: the edit visitors, then save = Assemble on the edited tree
+		in, ops := ue.Unpack(c)
+		res := ue.Execute(in, ops)
+		out.Class = "asmrun:" + res.Stage + ":" + res.Class
+		if n := len(res.Steps); n > 0 {
+			out.Class += "@" + res.Steps[n-1].Op.Kind
+		}
+		out.Key = res.RunLine()
+		for _, st := range res.Steps {
+			if !st.Op.IsSave() {
+				continue
+			}
+			ck := core.Check{Tag: "O", What: "save-after-edit-returns-or-errors", Exp: "a value or an error", Got: "a value or an error"}
+			if !okOrErr(st.Class) && !res.NilFile {
+				ck.Got = st.Class + ": " + st.Detail
+				ck.Sig = st.Class + ":save-after-edit:" + panicKind(st.Detail)
+			}
+			out.Checks = append(out.Checks, ck)
+		}
+		if ue.AllModelled(ops) && len(in) <= 64<<10 {
+			out.Checks = append(out.Checks, core.Check{Tag: "M", What: "asmrun",
+				Req: "asmrun " + core.Hex(in) + " " + ue.OpsText(ops), Exp: res.RunLine()})
 		}
 		out.Trivial = len(in) == 0
 		return out
